@@ -1693,3 +1693,170 @@ func c17R12(c *Ctx, r *Report) {
 		r.Check(builds, rule, asOpt.Name(), "retypes the look-up with types.NewOptional", c.pos(asOpt.Decl.Pos()), "the look-up keeps its value type")
 	}
 }
+
+// ---- C16.R9: wide-integer to wide-integer casts copy limbs -----------------------------------------------------
+
+func init() {
+	lateInits = append(lateInits, func() {
+		props["C16"].Quick = append(props["C16"].Quick, c16R9)
+		props["C01"].Quick = append(props["C01"].Quick, c16R9)
+		props["C16"].Explanation += " (R9) a cast between two of i128/u128/i256/u256 is lowered to the limb-copying runtime helper (sign- or zero-extension by the source's signedness), not to a decimal-text round trip; the helper fills the upper limbs from the source's sign only when the source is signed."
+	})
+}
+
+func c16R9(c *Ctx, r *Report) {
+	const rule = "C16.R9"
+	r.Describe(rule, "mir/gen emitLargeCast: in the large-to-large branch the text round trip (emitLargeToString + _from_string_ptr) is preceded by a wideIntShape test of both types that returns the result of ferret_wide_int_convert_ptr; bigint.c: the helper's fill limb is all-ones only under src_signed && negative, and every destination limb is in[i] or fill")
+	fn := c.LookupFn(pkgMIRGen, "(*functionBuilder).emitLargeCast")
+	shape := c.LookupFn(pkgMIRGen, "wideIntShape")
+	toStr := c.LookupFn(pkgMIRGen, "(*functionBuilder).emitLargeToString")
+	if !r.Anchor(rule, fn != nil && toStr != nil, "mir/gen emitLargeCast / emitLargeToString") {
+		return
+	}
+	info := fn.Info()
+	// the first emitLargeToString call of the function is the large->large text path
+	var strPos token.Pos
+	for _, cl := range callsIn(fn.Decl.Body, false) {
+		if isCallTo(info, cl, toStr.Obj) && (strPos == token.NoPos || cl.Pos() < strPos) {
+			strPos = cl.Pos()
+		}
+	}
+	guarded := false
+	if shape != nil && strPos != token.NoPos {
+		ast.Inspect(fn.Decl.Body, func(x ast.Node) bool {
+			ifs, ok := x.(*ast.IfStmt)
+			if !ok || ifs.Pos() > strPos || ifs.Init == nil {
+				return true
+			}
+			if nodeCalls(info, ifs.Init, shape.Obj) == nil {
+				return true
+			}
+			// inside: a Call literal targeting the helper and a return
+			hasHelper, hasRet := false, false
+			ast.Inspect(ifs.Body, func(y ast.Node) bool {
+				if bl, ok := y.(*ast.BasicLit); ok {
+					if v := constOf(info, bl); v != nil && v.Kind() == constant.String && constant.StringVal(v) == "ferret_wide_int_convert_ptr" {
+						hasHelper = true
+					}
+				}
+				if _, ok := y.(*ast.ReturnStmt); ok {
+					hasRet = true
+				}
+				return true
+			})
+			if hasHelper && hasRet {
+				guarded = true
+			}
+			return true
+		})
+	}
+	r.Check(strPos == token.NoPos || guarded, rule, fn.Name(), "integer-to-integer wide casts bypass the decimal text round trip", c.pos(fn.Decl.Pos()),
+		"a cast between two wide integer types is performed by printing the value and parsing the text with the target's parser: a negative value has no unsigned spelling, so `(-3 as i128) as u128` yields 0 instead of 2^128-3")
+	if shape != nil {
+		pe := newPEval(c)
+		want := map[string][3]string{"i128": {"128", "true", "true"}, "u128": {"128", "false", "true"}, "i256": {"256", "true", "true"}, "u256": {"256", "false", "true"}, "f128": {"0", "false", "false"}, "i64": {"0", "false", "false"}}
+		names := []string{"i128", "u128", "i256", "u256", "f128", "i64"}
+		for _, nm := range names {
+			res, err := pe.Call(shape, []Val{kstr(nm)})
+			if err != nil || len(res) != 3 {
+				r.Fail(rule, shape.Name(), "shape of "+nm, c.pos(shape.Decl.Pos()), fmt.Sprintf("undecidable: %v", err))
+				continue
+			}
+			got := [3]string{valString(res[0]), valString(res[1]), valString(res[2])}
+			w := want[nm]
+			r.Check(got == w, rule, shape.Name(), "shape of "+nm+" = "+strings.Join(w[:], ","), c.pos(shape.Decl.Pos()),
+				"wideIntShape("+nm+") = "+strings.Join(got[:], ",")+": the helper is told a wrong width or signedness (a signed source must be sign-extended, an unsigned one zero-extended)")
+		}
+	}
+	// the C helper
+	cf := cLoad(c, r, rule, "runtime/core/bigint.c")
+	if cf == nil {
+		return
+	}
+	h := cf.Funcs["ferret_wide_int_convert_ptr"]
+	if !r.Anchor(rule, h != nil, "bigint.c:ferret_wide_int_convert_ptr") {
+		return
+	}
+	signedGuard, selects := false, false
+	h.Walk(func(x *CNode) bool {
+		if x.Kind == "IfStmt" && len(x.Inner) >= 2 {
+			cs := x.Inner[0].Src()
+			if strings.Contains(cs, "src_signed") && strings.Contains(cs, "ferret_is_negative_limbs") && strings.Contains(cs, "&&") {
+				signedGuard = true
+			}
+		}
+		if x.Kind == "ConditionalOperator" && len(x.Inner) == 3 {
+			if strings.Contains(x.Inner[0].Src(), "<") && strings.Contains(x.Inner[1].Src(), "[") {
+				selects = true
+			}
+		}
+		return true
+	})
+	r.Check(signedGuard, rule, "bigint.c:ferret_wide_int_convert_ptr", "upper limbs are all-ones only for a negative signed source", c.cpos(cf, h), "the extension does not depend on the source's signedness and sign")
+	r.Check(selects, rule, "bigint.c:ferret_wide_int_convert_ptr", "each destination limb is the source limb or the fill", c.cpos(cf, h), "destination limbs are not taken from the source limbs / fill")
+}
+
+// ---- C16.R10: postfix ++/-- returns a snapshot ----------------------------------------------------------------
+
+func init() {
+	lateInits = append(lateInits, func() {
+		props["C16"].Quick = append(props["C16"].Quick, c16R10)
+		props["C01"].Quick = append(props["C01"].Quick, c16R10)
+		props["C16"].Explanation += " (R10) the value x++ / x-- yields is copied out of the variable (a helper that allocates a slot and stores into it) before the incremented value is stored: for by-reference types a load is the variable's own address."
+	})
+}
+
+func c16R10(c *Ctx, r *Report) {
+	const rule = "C16.R10"
+	r.Describe(rule, "mir/gen lowerPostfix: every variable returned on the ++/-- paths that is defined by emitLoad is re-defined through a same-package helper whose body calls emitAlloca and emitStore (copy), before it is returned")
+	fn := c.LookupFn(pkgMIRGen, "(*functionBuilder).lowerPostfix")
+	load := c.LookupFn(pkgMIRGen, "(*functionBuilder).emitLoad")
+	alloca := c.LookupFn(pkgMIRGen, "(*functionBuilder).emitAlloca")
+	store := c.LookupFn(pkgMIRGen, "(*functionBuilder).emitStore")
+	if !r.Anchor(rule, fn != nil && load != nil && alloca != nil && store != nil, "mir/gen lowerPostfix / emitLoad / emitAlloca / emitStore") {
+		return
+	}
+	info := fn.Info()
+	defs := localDefs(fn)
+	isCopyHelper := func(cl *ast.CallExpr) bool {
+		hf := c.FnOf(callee(info, cl))
+		if hf == nil || hf.Decl == nil || hf.Decl.Body == nil || hf.Obj.Pkg() != fn.Obj.Pkg() {
+			return false
+		}
+		return nodeCallsDeep(hf.Info(), hf.Decl.Body, alloca.Obj) && nodeCallsDeep(hf.Info(), hf.Decl.Body, store.Obj)
+	}
+	n := 0
+	ast.Inspect(fn.Decl.Body, func(x ast.Node) bool {
+		ret, ok := x.(*ast.ReturnStmt)
+		if !ok || len(ret.Results) != 1 {
+			return true
+		}
+		id, ok := ast.Unparen(ret.Results[0]).(*ast.Ident)
+		if !ok {
+			return true
+		}
+		o := info.Uses[id]
+		loaded, copied := false, false
+		for _, d := range defs[o] {
+			if d.Pos() > ret.Pos() {
+				continue
+			}
+			if cl, ok := ast.Unparen(d).(*ast.CallExpr); ok {
+				if isCallTo(info, cl, load.Obj) {
+					loaded = true
+				}
+				if isCopyHelper(cl) {
+					copied = true
+				}
+			}
+		}
+		if !loaded {
+			return true
+		}
+		n++
+		r.Check(copied, rule, fn.Name(), "old value "+id.Name+" is copied before the update", c.pos(ret.Pos()),
+			"the value returned by x++ / x-- is the result of emitLoad, which for 128/256-bit numbers is the address of the variable itself: after the store it shows the new value (`let old := a++` gives old == a)")
+		return true
+	})
+	r.Floor(rule, n, 2, "postfix paths returning the loaded value")
+}
